@@ -54,7 +54,7 @@ class PositiveClosure(Closure):
 
     @cached_property
     def _nullable(self) -> bool:
-        return self.exp.is_nullable()
+        return self.exp._nullable
 
 
 @nodedataclass
@@ -120,7 +120,7 @@ class PositiveGather(Gather):
 
     @cached_property
     def _nullable(self) -> bool:
-        return self.exp.is_nullable()
+        return self.exp._nullable
 
 
 @nodedataclass
